@@ -141,8 +141,13 @@ type LayerOpts struct {
 	AlgItem  *refcbor.Item // any item as the alg value (when Alg == nil and AlgText == "")
 	MaxExtra int           // upper bound on additional labels per bucket
 	NoCrit   bool
-	Steer    bool // steer the encoded protected size across 23/24, 255/256 (and 65535/65536 in thorough runs)
-	Big      bool // allow the 64 KiB boundary
+	// Tagged adds tagged values (date/time, URI, UUID, unassigned tags) under
+	// private labels of the PROTECTED bucket: the documented limits exclude
+	// tags from the envelope and from unprotected values only.  Foreign peer
+	// only (there is no Go spelling for them here).
+	Tagged bool
+	Steer  bool // steer the encoded protected size across 23/24, 255/256 (and 65535/65536 in thorough runs)
+	Big    bool // allow the 64 KiB boundary
 }
 
 // genLayer generates a conforming header layer (RFC 9052 section 3.1 rules
@@ -221,6 +226,24 @@ func genLayer(t *tape.Tape, o LayerOpts) Layer {
 	}
 	for i := 0; i < nU; i++ {
 		genEntry(&l.Unprot, false)
+	}
+	if o.Tagged {
+		for i, n := 0, 1+t.Choose(2, "hdr.tagged.n"); i < n; i++ {
+			var v *refcbor.Item
+			switch t.Choose(5, "hdr.tagged.kind") {
+			case 0:
+				v = refcbor.Tag(1, refcbor.Int(int64(t.Choose(1<<30, "hdr.tagged.epoch"))))
+			case 1:
+				v = refcbor.Tag(32, refcbor.Tstr("https://example.test/"+genText(t, 8)))
+			case 2:
+				v = refcbor.Tag(0, refcbor.Tstr("2024-01-02T03:04:05Z"))
+			case 3:
+				v = refcbor.Tag(37, refcbor.Bstr(t.Bytes(16, "hdr.tagged.uuid")))
+			default:
+				v = refcbor.Array(refcbor.Tag(uint64(1000+t.Choose(1000, "hdr.tagged.tag")), genValue(t, 1)), refcbor.Int(1))
+			}
+			add(&l.Prot, refcbor.Int(int64(-70100-t.Choose(50, "hdr.tagged.label"))), v)
+		}
 	}
 	if !o.NoCrit && len(l.Prot) > 0 && t.Bool(1, 6, "hdr.crit") {
 		n := 1 + t.Choose(min(3, len(l.Prot)), "crit.n")
